@@ -410,3 +410,22 @@ package locate
 //@   opaque-callee getStore getLivenessState unsetProxyStoreIfNeeded invalidateReplicaStore setSyncFlags
 //@   loop 1 invariant l1: true
 //@   at return assert unused: proxy != nil ==> proxy.attempts < 1
+
+// Switching the work leader to a peer stores the peer's position in the TiKV-only access list (not its position in the
+// region's full peer list, which differs as soon as a TiFlash peer precedes it): the new work index either names an
+// entry of that list whose store index is the peer's, or stays 0 when the peer's store is not in the list.
+// (clone only writes the copy it allocates)
+//@ func (*regionStore) clone
+//@   prop C09
+//@   may-panic
+//@   modifies nothing
+//@   ensures result != nil && fresh(result)
+
+//@ func (*Region) switchWorkLeaderToPeer
+//@   prop C09
+//@   may-panic
+//@   opaque-callee getPeerStoreIndex
+//@   loop 2 invariant idx: -1 <= rangeindex && rangeindex < len(oldRegionStore.accessIndex[tiKVOnly]) && (leaderIdx == 0 || (0 <= leaderIdx && leaderIdx <= rangeindex && oldRegionStore.accessIndex[tiKVOnly][leaderIdx] == globalStoreIdx))
+//@   loop 2 invariant same: oldRegionStore != nil
+//@   loop 1 invariant outer: true
+//@   at call(compareAndSwapStore) assert translated: arg1.workTiKVIdx == leaderIdx && (leaderIdx == 0 || (0 <= leaderIdx && leaderIdx < len(oldRegionStore.accessIndex[tiKVOnly]) && oldRegionStore.accessIndex[tiKVOnly][leaderIdx] == globalStoreIdx))
